@@ -53,6 +53,7 @@ type genCfg struct {
 	varBounds              bool // overdraft bounds may be arbitrary monetary expressions (front-end corpora)
 	deepInfix              bool // chains of several + / - (left-nested)
 	worldVars              bool // account variables may be valued "world"
+	negBounds              bool // overdraft bounds may be negative literals (a negative bound takes from what the balance alone would give)
 	monVars                bool // many monetary variables, used (and re-used) wherever a monetary is expected
 }
 
@@ -235,6 +236,11 @@ func (g *gen) src(asset string, d int, ctx *srcCtx, sendAll bool, capped bool) J
 			if !c.unspecified && !c.varBounds {
 				// keep the bound non-negative: a literal non-negative number
 				b = eMon(eAsset(asset), eNum(absInt(g.num())))
+				if c.negBounds && r.Intn(4) == 0 {
+					b = eMon(eAsset(asset), eNum(-absInt(g.num())))
+					ctx.used[name] = true
+					return J{"k": "ovd", "e": e, "b": b}
+				}
 				if r.Intn(3) == 0 {
 					// ... or a non-negative monetary variable
 					for _, v := range g.vars {
@@ -629,10 +635,12 @@ func corpusCfg(name string) genCfg {
 		base.maxVars = 2
 		base.dstDepth = 1
 		base.negNums = true
+		base.negBounds = true
 		base.infix = true
 		base.nums = append([]int{-30, -5}, baseNums...)
 	case "src": // C04: rich source, plain destination
 		base.plainDst = true
+		base.negBounds = true
 		base.worldVars = true
 		base.infix = true
 		base.deepInfix = true
